@@ -39,7 +39,7 @@ type rrInfo struct {
 }
 
 func resolveRR(p *Prog, r *Report, rule string) *rrInfo {
-	ri := &rrInfo{typ: p.Named("roundrobin", "RoundRobin"), srvTyp: p.Named("roundrobin", "server")}
+	ri := &rrInfo{typ: p.Named("roundrobin", "RoundRobin"), srvTyp: namedRole(p, "roundrobin", "server")}
 	if ri.typ == nil || ri.srvTyp == nil {
 		r.Anchor(rule, "roundrobin.RoundRobin / roundrobin.server", "types not found")
 		return nil
